@@ -61,7 +61,7 @@ func checkValue(val string) bool {
 func checkKeyRemain(key string) bool {
 	// ( lcalpha / DIGIT / "_" / "-"/ "*" / "/" )
 	for _, v := range key {
-		if isAlphaNum(byte(v)) {
+		if v < 0x80 && isAlphaNum(byte(v)) {
 			continue
 		}
 		switch v {
